@@ -17,9 +17,10 @@ import (
 // C05: TWCC feedback reports exactly what was received, in valid wire form.
 
 type c05Cfg struct {
-	Interceptor bool `json:"interceptor"`
-	IntervalMs  int  `json:"interval_ms"`
-	Streams     int  `json:"streams"`
+	Interceptor bool  `json:"interceptor"`
+	IntervalMs  int   `json:"interval_ms"`
+	Streams     int   `json:"streams"`
+	BaseUs      int64 `json:"base_us,omitempty"` // direct mode: how long the recorder's arrival clock has been running
 }
 
 type c05Op struct {
@@ -39,6 +40,11 @@ func (c05) ID() string { return "C05" }
 func (c05) Gen(seed int64, tier string, avoid []string) *Plan {
 	p, r := newPlan("C05", seed, tier, avoid)
 	cfg := c05Cfg{Interceptor: chance(r, 350), IntervalMs: pick(r, 10, 25, 50, 100, 250), Streams: pick(r, 1, 1, 2, 3)}
+	if !cfg.Interceptor {
+		// the 24-bit reference time (64 ms units) wraps after 12.4 days of arrival clock
+		const wrapUs = int64(1) << 24 * 64000
+		cfg.BaseUs = pick(r, 0, 0, 0, wrapUs-1_500_000, wrapUs+3_600_000_000, 3*wrapUs-200_000)
+	}
 	avoidSet := map[string]bool{}
 	for _, a := range avoid {
 		avoidSet[a] = true
@@ -468,8 +474,8 @@ func (c05) Run(e *Env) {
 						e.Fault("arrival_gap>8s")
 					}
 				}
-				rec.Record(uint32(100+o.S), uint16(o.U), o.AtUs)
-				m.record(uint16(o.U), o.AtUs)
+				rec.Record(uint32(100+o.S), uint16(o.U), cfg.BaseUs+o.AtUs)
+				m.record(uint16(o.U), cfg.BaseUs+o.AtUs)
 			case "b":
 				pkts := rec.BuildFeedbackPacket()
 				c05Check(e, m, pkts, len(m.recs), len(m.recs))
